@@ -424,6 +424,16 @@ def curated_special():
     out.append(('same-pos-int-vs-str', [
         ('rule', 'start', None, ('seq', [('expect', ('call', 'V', [('py', '1')])), ('call', 'V', [('py', "'1'")])])),
         ('rule', 'V', ['v'], ('seq', [T, ('py', 'v')]))]))
+    # the same template at one position with arguments that are unequal but hash alike (hash(-1) ==
+    # hash(-2); the memo's XOR hash of a list ignores the order), positional and by keyword
+    for htag, v1, v2 in (('minus', '-1', '-2'), ('perm', '[0, 1]', '[1, 0]'), ('nested-perm', "{'k': [1, 2]}", "{'k': [2, 1]}"), ('tuple-perm', '(1, 2)', '(2, 1)')):
+        for ctag, mk in (('pos', lambda x: ('py', x)), ('kw', lambda x: ('kw', 'v', ('py', x)))):
+            out.append(('same-pos-hash-equal-%s-%s' % (htag, ctag), [
+                ('rule', 'start', None, ('seq', [('expect', ('call', 'V', [mk(v1)])), ('call', 'V', [mk(v2)])])),
+                ('rule', 'V', ['v'], ('seq', [T, ('py', 'v')]))]))
+            out.append(('same-pos-hash-equal-alt-%s-%s' % (htag, ctag), [
+                ('rule', 'start', None, ('alt', [('seq', [('call', 'K', [T, mk(v1)]), ('str', '!')]), ('call', 'K', [T, mk(v2)])])),
+                ('rule', 'K', ['p', 'v'], ('seq', [('ref', 'p'), ('py', "('k', v)")]))]))
     # bare bound names as arguments: let, field, parameter
     out.append(('bound-let', [
         ('rule', 'start', None, ('let', 'q', T, ('seq', [('call', 'V', [('ref', 'q')]), ('call', 'V', [('py', 'q + q')])]))),
